@@ -700,6 +700,24 @@ func (c *c32Checker) renameCandidate(fi, ti int, name string) bool {
 	return false
 }
 
+// pkChangedPartner: name exists on one side only and a table that exists only on the other
+// side shares a column with it (dolt's rename detection) but has another primary key.
+func (c *c32Checker) pkChangedPartner(fi, ti int, name string) bool {
+	fs, ts := c.h.Commits[fi].State, c.h.Commits[ti].State
+	for _, other := range c.h.cfg.TablePool {
+		if other == name {
+			continue
+		}
+		if fs[name] != nil && ts[name] == nil && fs[other] == nil && ts[other] != nil && c32Overlap(fs[name], ts[other]) && c32PKChanged(fs[name], ts[other]) {
+			return true
+		}
+		if fs[name] == nil && ts[name] != nil && fs[other] != nil && ts[other] == nil && c32Overlap(fs[other], ts[name]) && c32PKChanged(fs[other], ts[name]) {
+			return true
+		}
+	}
+	return false
+}
+
 func c32TablesEqual(a, b *hTable) bool {
 	if !c32SameSchema(a, b) {
 		return false
@@ -759,10 +777,16 @@ func (c *c32Checker) diffSummary(fi, ti int) {
 				c.fail("C32 dolt_diff_summary: lists table %s which exists at neither commit: %s -> %v", name, q, rows)
 			}
 		case from == nil:
+			if toSeen[name] == nil && c.pkChangedPartner(fi, ti, name) {
+				continue // paired with a table of another primary key (rename detection): dolt warns and renders no row
+			}
 			if r := toSeen[name]; r == nil || (r[2] != "added" && r[2] != "renamed") {
 				c.fail("C32 dolt_diff_summary: table %s exists only at `to`; want an added/renamed row, got %q: %s -> %v", name, r, q, rows)
 			}
 		case to == nil:
+			if fromSeen[name] == nil && c.pkChangedPartner(fi, ti, name) {
+				continue
+			}
 			if r := fromSeen[name]; r == nil || (r[2] != "dropped" && r[2] != "renamed") {
 				c.fail("C32 dolt_diff_summary: table %s exists only at `from`; want a dropped/renamed row, got %q: %s -> %v", name, r, q, rows)
 			}
@@ -1028,8 +1052,22 @@ func (c *c32Checker) diffTable() {
 		for k := 0; k+1 < len(anc); k++ {
 			child, parent := h.Commits[anc[k]], h.Commits[anc[k+1]]
 			from, to := parent.State[name], child.State[name]
+			if to == nil {
+				break // dolt_diff_<t> follows the table by name from HEAD back to where it first appears
+			}
 			if !c32SameSchema(to, cur) || !(from == nil || c32SameSchema(from, cur)) {
 				continue
+			}
+			if from == nil {
+				renameCand := false
+				for _, other := range h.cfg.TablePool {
+					if parent.State[other] != nil && child.State[other] == nil {
+						renameCand = true
+					}
+				}
+				if renameCand {
+					break // the table may have arrived by a rename: what the first entry is diffed against is dolt's choice
+				}
 			}
 			sub := &vsql.Rows{Cols: all.Cols}
 			for _, r := range all.Data {
